@@ -1,6 +1,7 @@
 import FeatherModel.Base.Driver
 import FeatherModel.Model.Remapper
 import FeatherModel.Model.RemapperSpec
+import FeatherModel.Model.RemapProv
 import FeatherModel.Spec.DescGrammar
 
 open Driver Sexp Codec Remapper
@@ -53,6 +54,101 @@ def memberResolution (m kind src dst sup owner n d : Sexp) : Option Ans := do
         match mapMemberFail sel r sup (defaultFuel sup) owner (n, d) with
         | none => fail "fuel"
         | some res => if res == firstHit sel r (n, d) order then pass else fail "differs")
+
+/-! ## `JarSuperProv::remap` -/
+
+/-- `provs = (prov…)`, `prov = ((class (super…))…)`: every provider built the way a loop of `insert`s builds the
+`IndexMap<_, IndexSet<_>>` (`provOf`) -/
+def provsFrom (s : Sexp) : Option (List Supers) := toListOf? (fun p => (supersFrom p).map provOf) s
+
+def provsTo (ps : List Supers) : Sexp :=
+  ofList (fun s => ofList (fun e : JStr × List JStr => list [ofJStr e.1, ofList ofJStr e.2]) s) ps
+
+/-- Kahn-style: repeatedly drop the rows none of whose targets is the key of a remaining row; acyclic iff nothing remains -/
+def acyclicGo : Nat → List (JStr × List JStr) → Bool
+  | 0, es => es.isEmpty
+  | n + 1, es =>
+    let keys := es.map Prod.fst
+    let es' := es.filter fun e => e.2.any fun p => keys.contains p
+    if es'.length == es.length then es.isEmpty else acyclicGo n es'
+
+def acyclicRows (es : List (JStr × List JStr)) : Bool := acyclicGo es.length es
+
+/-- the guard of the there-and-back ops: the graph of all rows and its image under the renaming (all rows, whether or not
+they survive `insert`) are acyclic — the Rust search recurses without a visited set -/
+def guardAcyclic (t : ATable) (ps : List Supers) : Bool :=
+  acyclicRows ps.flatten && acyclicRows (ps.flatten.map fun e => (mapClass t e.1, e.2.map (mapClass t)))
+
+/-- `prov_remap_spec` / `prov_remap_keeps_edges` evaluated on a result `out` of `remap`: as many providers; the keys of every
+provider are the images of the keys, first occurrences in order; every surviving row (no later key with the same image)
+is answered with exactly the images of its super types, first occurrences in order -/
+def provEdgesOracle (t : ATable) (ps out : List Supers) : Ans :=
+  if ps.length != out.length then fail "length" else
+  let bad := (List.zip ps out).findSome? fun (s, s') =>
+    if s'.map Prod.fst != (s.map fun e => mapClass t e.1).eraseDups then some "keys" else
+    let rec go : List (JStr × List JStr) → Option String
+      | [] => none
+      | e :: rest =>
+        if rest.any fun e2 => mapClass t e2.1 == mapClass t e.1 then go rest
+        else if AList.lookup (mapClass t e.1) s' != some (e.2.map (mapClass t)).eraseDups then some "edges" else go rest
+    go s
+  match bad with
+  | some w => fail w
+  | none => pass
+
+structure ThereBack where
+  rf : BTable
+  rb : BTable
+  ps : List Supers
+  sel : BClass → AList MemberKey MemberKey
+  owner : JStr
+  key : MemberKey
+
+def thereBackFrom (m kind x y provs owner n d : Sexp) : Option (Option ThereBack) := do
+  let m ← mappingsFrom m; let kind ← toTag? kind; let sel ← selOf kind
+  let x ← toNat? x; let y ← toNat? y; let ps ← provsFrom provs
+  let owner ← toJStr? owner; let n ← toJStr? n; let d ← toJStr? d
+  pure (match remapperB m x y, remapperB m y x with
+    | some rf, some rb => some { rf := rf, rb := rb, ps := ps, sel := sel, owner := owner, key := (n, d) }
+    | _, _ => none)
+
+/-- `remapper_b(X→Y, ps)` asked about the member, `ps' = JarSuperProv::remap(that remapper, ps)`, `remapper_b(Y→X, ps')`
+asked about the answer in the image of the owner -/
+def thereBack (c : ThereBack) : Ans :=
+  let t := classTable c.rf
+  if !guardAcyclic t c.ps then .ok (tag "cyclic") else
+  let sup := flattenProvs c.ps
+  match mapMemberFail c.sel c.rf sup (defaultFuel sup) c.owner c.key with
+  | none => .skip "fuel"
+  | some none => .ok (list [list [], list []])
+  | some (some key') =>
+    let sup' := flattenProvs (remapProvs t c.ps)
+    match mapMemberFail c.sel c.rb sup' (defaultFuel sup') (mapClass t c.owner) key' with
+    | none => .skip "fuel"
+    | some back => .ok (list [list [keyTo key'], list [ofOption keyTo back]])
+
+/-- `roundtrip_inherited` -/
+def roundtripInherited (c : ThereBack) : Ans :=
+  let t := classTable c.rf
+  if !guardAcyclic t c.ps then ood else
+  if !wfProvs c.ps then ood else
+  if !injOnList (mapClass t) (c.owner :: nodesOf c.ps) then ood else
+  let sup := flattenProvs c.ps
+  match dfs sup (defaultFuel sup) c.owner with
+  | none => ood
+  | some order =>
+    match order.findSome? (declares c.sel c.rf c.key) with
+    | none => ood
+    | some key' =>
+      let okPath := order.all fun d =>
+        match declares c.sel c.rf c.key d with
+        | none => declares c.sel c.rb key' (mapClass t d) == none
+        | some v => v != key' || declares c.sel c.rb key' (mapClass t d) == some c.key
+      if !okPath then ood else
+      let sup' := flattenProvs (remapProvs t c.ps)
+      match mapMemberFail c.sel c.rb sup' (defaultFuel sup') (mapClass t c.owner) key' with
+      | none => .skip "fuel"
+      | some back => if back == some c.key then pass else fail "differs"
 
 /-- `(class a|b c)` | `(desc a|b f|m|r d)` | `(member f|m owner n d)` | `(mref class n d)` -/
 def queryFrom : Sexp → Option Query
@@ -212,6 +308,24 @@ def handle (op : String) (args : List Sexp) : Option Ans :=
           | _, _ => ood
         | _, _ => ood
       | _, _ => ood)
+  | "prov-remap", [m, which, src, dst, provs] => do
+    let m ← mappingsFrom m; let which ← toTag? which; let src ← toNat? src; let dst ← toNat? dst; let ps ← provsFrom provs
+    pure (match classTableOf which m src dst with
+      | none => .err "e"
+      | some t => .ok (provsTo (remapProvs t ps)))
+  | "oracle-prov-remap-edges", [m, which, src, dst, provs] => do
+    let m ← mappingsFrom m; let which ← toTag? which; let src ← toNat? src; let dst ← toNat? dst; let ps ← provsFrom provs
+    pure (match classTableOf which m src dst with
+      | none => ood
+      | some t => provEdgesOracle t ps (remapProvs t ps))
+  | "map-there-back", [m, kind, x, y, provs, owner, n, d] => do
+    pure (match ← thereBackFrom m kind x y provs owner n d with
+      | none => .err "e"
+      | some c => thereBack c)
+  | "oracle-roundtrip-inherited", [m, kind, x, y, provs, owner, n, d] => do
+    pure (match ← thereBackFrom m kind x y provs owner n d with
+      | none => ood
+      | some c => roundtripInherited c)
   | _, _ => none
 
 end C06
